@@ -33,6 +33,7 @@ pub mod eyre {
     }
     impl Report {
         pub fn new() -> Self { Report { insufficient_funds: false } }
+        pub fn msg<M>(_m: M) -> Self { Report::new() }
         pub fn wrap_err<D>(self, _msg: D) -> Self { self }
     }
     pub type Result<T, E = Report> = core::result::Result<T, E>;
@@ -50,12 +51,20 @@ pub mod eyre {
         fn context<D>(self, _msg: D) -> Result<T> { self.map_err(Into::into) }
         fn with_context<D, F: FnOnce() -> D>(self, _f: F) -> Result<T> { self.map_err(Into::into) }
     }
+    /// error payloads handed to ok_or_eyre: plain messages carry nothing; typed errors may set a flag
+    pub trait IntoReport { fn into_report(self) -> Report where Self: Sized { Report::new() } }
+    impl IntoReport for &str {}
+    impl IntoReport for String {}
     pub trait OptionExt<T>: Sized {
-        fn ok_or_eyre<D>(self, msg: D) -> Result<T>;
+        fn ok_or_eyre<D: IntoReport>(self, msg: D) -> Result<T>;
     }
     impl<T> OptionExt<T> for Option<T> {
-        fn ok_or_eyre<D>(self, _msg: D) -> Result<T> { self.ok_or(Report::new()) }
+        fn ok_or_eyre<D: IntoReport>(self, msg: D) -> Result<T> { match self { Some(v) => Ok(v), None => Err(msg.into_report()) } }
     }
 }
 #[allow(unused_imports)]
 use eyre::{OptionExt as _, WrapErr as _};
+
+/// replacement for alloc::fmt::format in harnesses (`#[kani::stub(alloc::fmt::format, crate::vx_stub_format)]`):
+/// formatted messages are never inspected by the code under proof
+pub fn vx_stub_format(_args: std::fmt::Arguments<'_>) -> String { String::new() }
